@@ -174,9 +174,9 @@ func (m *Mon) Update(f MonFlags, sc *Scenario, pre *View, a Action, res *StepRes
 			}
 		}
 		for id, e := range n.Req {
-			// forget a request once its record is gone and its expiry block has ended (a record that vanishes
+			// forget a request once its record and its pending marker are gone and its expiry block has ended (a record that vanishes
 			// earlier keeps its entry, so the "pending until the expiry block ends" invariant can object)
-			if _, ok := post.Reqs[id]; !ok && post.H > e.IssueH+e.Timeout {
+			if _, ok := post.Reqs[id]; !ok && !post.ActiveByID[id] && post.H > e.IssueH+e.Timeout {
 				delete(n.Req, id)
 			}
 		}
